@@ -21,6 +21,7 @@ LEVEL_TEXT = ('static: codec format tables (writer vs reader vs OSC 1.0), paddin
               'size test. Does not decide value round-trip or float32 coercion.')
 LEVEL_NOTE = 'OSC 1.0 atom table in the rule module is the external oracle; struct semantics trusted'
 LEVEL_TEXT_ADD = ' Also: writer/reader agreement on what cannot be carried (null bytes in strings, addresses the reader does not recognise).'
+LEVEL_TEXT_ADD += " Rounds e-f: inferred tag widths never exceed the predictor's default; add_arg/add_content append-only; slice-style clumping tiles the element list; element handling of _build_bundle (shared with C07)."
 LEVEL_TEXT = (globals().get('LEVEL_TEXT') or EXPLANATION) + LEVEL_TEXT_ADD
 TECHNIQUE = 'static analysis: decision-table extraction + arithmetic evaluation of padding/size expressions over residues'
 
